@@ -429,7 +429,7 @@ impl Searcher {
                 match entry.kind {
                     EvaluationKind::Exact => {
                         if current_depth == 0 {
-                            transpositions.insert(state_hash, entry);
+                            transpositions.insert_if_absent(state_hash, entry);
                         }
 
                         return Ok(entry.evaluation);
@@ -444,7 +444,7 @@ impl Searcher {
 
                 if alpha >= beta {
                     if current_depth == 0 {
-                        transpositions.insert(state_hash, entry);
+                        transpositions.insert_if_absent(state_hash, entry);
                     }
 
                     return Ok(entry.evaluation);
@@ -582,7 +582,7 @@ impl Searcher {
             );
         } else if let Some(entry) = stored_root_entry {
             // No move improved on the bound taken from the stored root entry
-            transpositions.insert(state_hash, entry);
+            transpositions.insert_if_absent(state_hash, entry);
         }
 
         Ok(alpha)
@@ -749,6 +749,16 @@ impl TranspositionTableAccess {
     fn insert(&self, hash: Hash, entry: TranspositionEntry) {
         let index = hash as usize % self.tables.len();
         self.tables[index].write().unwrap().insert(hash, entry);
+    }
+
+    /// Stores the entry unless the table already holds one for this position (which may
+    /// be newer); check and store happen under one write lock.
+    fn insert_if_absent(&self, hash: Hash, entry: TranspositionEntry) {
+        let index = hash as usize % self.tables.len();
+        let mut table = self.tables[index].write().unwrap();
+        if table.find(hash).is_none() {
+            table.insert(hash, entry);
+        }
     }
 
     fn find(&self, hash: Hash) -> Option<TranspositionEntry> {
